@@ -647,8 +647,8 @@ def check_cylindrical(ctx):
     def ex_(a, at):
         return U(hv.expand(a, at, allow_mutated=True, stop=stops)).replace(" ", "") if a is not None else None
 
-    okv = bool(vol) and all(len(c.args) >= 2 and ex_(c.args[0], c) == "np.outer(grid.cell_volume_data[0],grid.cell_volume_data[1])" and ex_(c.args[1], c) == "labels"
-                            and ex_(kwarg(c, "index") or (c.args[2] if len(c.args) > 2 else None), c) == "indices" for c in vol)
+    okv = bool(vol) and all(ex_(arg_or_kw(c, 0, "input"), c) == "np.outer(grid.cell_volume_data[0],grid.cell_volume_data[1])" and ex_(arg_or_kw(c, 1, "labels"), c) == "labels"
+                            and ex_(arg_or_kw(c, 2, "index"), c) == "indices" for c in vol)
     ctx.decide(okv, "DIM", CYL1 + ":volume", (h, vol[0]) if vol else h, "cluster volume = Σ of the cylindrical cell volumes (outer(vol_r, dz)) over the cluster's cells",
                "cluster volumes on cylindrical grids are not the per-label sum of np.outer(*grid.cell_volume_data)")
     # names of the per-cluster position and volume sequences
